@@ -40,10 +40,11 @@ pub static mut BAD_ENTRY_IN: u8 = 255;      // listing this directory yields one
 pub static mut NO_FILETYPE: u8 = 255;       // file_type() of this entry fails
 pub static mut ZIP_CORRUPT: bool = false;   // the archive cannot be opened as a zip
 pub static mut ZIP_BAD_MEMBER: u8 = 255;    // by_index(i) fails for this member index
+pub static mut REJECT: u8 = 255;            // the WHERE filter rejects this entry / member (recorder code): nothing is written, nothing is counted
 pub static mut PIPE_CLOSED_AFTER: u32 = u32::MAX;   // check_file reports a closed pipe (Ok(false)) once this many rows were written
 pub static mut DIAG_COUNT: u32 = 0;
 pub static mut DIAG_LAST: u8 = 255;
-pub fn reset_faults() { unsafe { UNLISTABLE = 255; BAD_ENTRY_IN = 255; NO_FILETYPE = 255; ZIP_CORRUPT = false; ZIP_BAD_MEMBER = 255; PIPE_CLOSED_AFTER = u32::MAX; DIAG_COUNT = 0; DIAG_LAST = 255; } }
+pub fn reset_faults() { unsafe { UNLISTABLE = 255; BAD_ENTRY_IN = 255; NO_FILETYPE = 255; ZIP_CORRUPT = false; ZIP_BAD_MEMBER = 255; PIPE_CLOSED_AFTER = u32::MAX; REJECT = 255; DIAG_COUNT = 0; DIAG_LAST = 255; } }
 pub fn error_message(a: &String, _b: &str) { unsafe { DIAG_COUNT += 1; DIAG_LAST = a.0; } }
 pub fn path_error_message(p: &Path, _e: IoError) { unsafe { DIAG_COUNT += 1; DIAG_LAST = p.0; } }
 pub mod util_shim {
@@ -108,5 +109,5 @@ impl Searcher {
     pub fn is_zip_archive(&self, s: &String) -> bool { s.0 == 2 }
     // stands for check_file with no WHERE clause: every entry handed over is counted (C06.found.accounting) and recorded
     // an archive member is recorded as 10 * member + entry
-    pub fn check_file(&mut self, e: &DirEntry, fi: &Option<FileInfo>) -> io::Result<bool> { let code = match fi { Some(m) => 10 * m.0 + e.0, None => e.0 }; if unsafe { PIPE_CLOSED_AFTER } <= self.found { return Ok(false); } if self.n < 12 { self.log[self.n] = code; self.n += 1; } self.found += 1; Ok(true) }
+    pub fn check_file(&mut self, e: &DirEntry, fi: &Option<FileInfo>) -> io::Result<bool> { let code = match fi { Some(m) => 10 * m.0 + e.0, None => e.0 }; if unsafe { REJECT } == code { return Ok(true); } if unsafe { PIPE_CLOSED_AFTER } <= self.found { return Ok(false); } if self.n < 12 { self.log[self.n] = code; self.n += 1; } self.found += 1; Ok(true) }
 }
